@@ -261,3 +261,13 @@ def _(self, cfg, input_step):
     types(cfg="dict", input_step="str")
     # the pyramids are lists owned by the machine: popping the next level is the only in-place operation on a protected field
     assigns("self{}", "self.left_disparity", "self.right_disparity", "self.img_left_pyramid", "self.img_right_pyramid")
+
+
+# ------------------------------------------------------------------------------------------------ interval regularisation (C12)
+# "each confidence step ... leaves every existing band ... exactly": the regularisation works on a padded / filtered COPY of the
+# ambiguity band it is given (np.hstack, np.nanmin produce new arrays) and returns new bounds; the caller's arrays are not written
+@frame("pandora.interval_tools.interval_regularization", props=["C12", "C18"])
+def _(interval_inf, interval_sup, ambiguity, ambiguity_threshold, ambiguity_kernel_size, vertical_depth, quantile_regularization):
+    types(interval_inf="f32[:,:]", interval_sup="f32[:,:]", ambiguity="f32[:,:]", ambiguity_threshold="float",
+          ambiguity_kernel_size="int", vertical_depth="int", quantile_regularization="float")
+    assigns()
